@@ -147,6 +147,13 @@ def check_c09(out, tier):
         rnd.shuffle(T2)
         items.append({"id": c["id"] + "f", "rel": "same", "how": "perm", "a": with_graph(c, grouped(True)), "b": with_graph(c, T2)})
         items.append({"id": c["id"] + "l", "rel": "same", "how": "perm", "a": with_graph(c, grouped(False)), "b": with_graph(c, grouped(True))})
+    # documents that describe their own properties (an IRI is a predicate in one statement and a node in another)
+    for i in range(24 * k):
+        T = gen.general_graph(rnd, max_nodes=5, bnodes=rnd.random() < .2, hierarchy="props")
+        c = gen.case("c09d%d" % i, T, **gen.switches(rnd))
+        T2 = list(T)
+        rnd.shuffle(T2)
+        items.append({"id": c["id"], "rel": "same", "how": "perm", "a": c, "b": with_graph(c, T2)})
     # one subject, several objects of one property with different sets of classes
     for i in range(30 * k):
         T = gen.typed_fan_graph(rnd)
@@ -298,6 +305,12 @@ def check_c13(out, tier):
     dec = []
     for c in base_cases(rnd, 80 * k, "c13d"):
         dec.append(with_cfg(c, report=rnd.choice(["mixed", "ratio"]), decimals=rnd.choice([0, 0, 1, 2, 3, 4])))
+    # a class of 2 500 instances, one of them without the property: 99.96 % is '100.0' with one decimal, '99.96' with two
+    for j, d_ in enumerate([1, 2]):
+        n = 2500
+        T = [(M.iri(M.EX + "w%d" % i), M.RDF_TYPE, M.iri(M.EX + "Wide")) for i in range(n)]
+        T += [(M.iri(M.EX + "w%d" % i), M.EX + "nick", M.lit("n")) for i in range(n - 1)]
+        dec.append(gen.case("c13dw%d" % j, T, report="ratio", decimals=d_, comments=True, allCompliant=j == 0))
     for p in common.load_pinned("C13"):
         if "case" in p and "campaign" not in p:
             c = dict(p["case"])
@@ -373,6 +386,16 @@ def check_c14(out, tier):
         rnd.shuffle(R)
         items.append({"id": c["id"], "rel": "inverse", "a": with_cfg(c, inverse=True), "b": with_cfg(c, inverse=False),
                       "c": with_cfg(with_graph(c, R), inverse=False)})
+    # classes of 49, 98, 103, 107 instances that all receive a link (n * (1 / n) is not 1 in floating point for these n), and of
+    # 5 with 3 linked
+    for j, (n, kk) in enumerate([(49, 49), (98, 98), (103, 103), (107, 107), (5, 3)]):
+        nodes = [M.iri(M.EX + "t%d" % i) for i in range(n)]
+        T = [(x, M.RDF_TYPE, M.iri(M.EX + "T")) for x in nodes] + [(M.iri(M.EX + "src%d" % i), M.EX + "has", nodes[i]) for i in range(kk)]
+        rnd.shuffle(T)
+        c = gen.case("c14w%d" % j, T, report="mixed", comments=True, allCompliant=True, keepLess=rnd.random() < .5)
+        R = sorted(set(reverse_graph(T)), key=str)
+        items.append({"id": c["id"], "rel": "inverse", "a": with_cfg(c, inverse=True), "b": with_cfg(c, inverse=False),
+                      "c": with_cfg(with_graph(c, R), inverse=False)})
     campaign(out, "C14", items, mine)
     pinned_campaigns(out, "C14", mine)
     # "the same figures": with a number of decimals the incoming lines print their ratios under the same rounding rule as the
@@ -418,7 +441,8 @@ def check_c16(out, tier):
                 out.violation("C16.cap(%s)" % cl, c, "instances_cap=%d" % c["cfg"]["cap"])
     ign = []
     for c in base_cases(rnd, 90 * k, "c16n", schema_share=.1):
-        nss = rnd.choice([[M.EX], [gen.EX2], [M.EX, gen.OTHER], [gen.OTHER], ["http://example.org"], [M.RDF],
+        # (a namespace is a string prefix: it need not end in '/' or '#' - 'http://example.org/p' has p0, p1, p2 as direct children)
+        nss = rnd.choice([[M.EX], [gen.EX2], [M.EX, gen.OTHER], [gen.OTHER], ["http://example.org"], [M.RDF], [M.EX + "p"], [M.EX + "p", gen.OTHER],
                           [M.EX, gen.EX2], [gen.EX2, M.EX], [gen.OTHER, M.EX, gen.EX2], ["http://example.org", gen.EX2]])
         if rnd.random() < .25:
             # namespaces are plain strings: characters that mean something to a regular expression ('(', ')', '+', '?', '.', '$', '[')
